@@ -10,6 +10,7 @@ the observed numbers.
 import copy
 import itertools
 import json
+import re
 import random
 import time
 import warnings
@@ -24,6 +25,7 @@ HEADER = ("From DV Require Import Model.PyPrims Model.Tree Model.C04Model.\n"
 KEY_F8 = "wrf-definedness-asymmetric"
 KEY_COLL = "weighted-distance-root-adjacent-edge-collision"
 KEY_DROP = "basal-collapse-drops-length-onto-missing"
+KEY_NSBIT = "namespace-bit-collision"
 
 DIST_KINDS = ("symdiff", "fpfn", "missing", "wrf", "euclid")
 VIAS = {"symdiff": ["fn", "fn", "urf", "method"], "fpfn": ["fn", "fn", "method"], "missing": ["fn"],
@@ -65,7 +67,186 @@ def perturb(rng, t, lengths):
     return relabel_ids(t)
 
 
-def gen_case(rng, max_leaves=12, nops=None, small=False):
+# ---- the shared namespace built through a HISTORY (taxa added, some removed - several, at different positions, the
+#      newest included -, more added, order changed) before the trees exist.  Taxon keys: 0..n-1 = the taxa the trees
+#      use (labels t<k>), 200+j = members no tree uses (labels u<j>), 1000+j = taxa removed again (labels x<j>, or the
+#      label of a tree taxon that is accessioned only after the removal: a taxon dropped and sampled again).
+
+ADD_VIAS = ["new_taxon", "new_taxon", "add_taxon", "require_taxon", "append"]
+REMOVE_VIAS = ["remove_taxon", "remove_taxon", "remove_taxon_label", "discard_taxon_label", "delitem"]
+
+
+def gen_nshist(rng, n):
+    """list of namespace operations: ["add", key, label, via] | ["remove", key, via] | ["sort", reverse] |
+    ["reverse"] | ["bitmask", key] (taxon_bitmask() called early: fills the namespace's bitmask cache)"""
+    late = rng.choice([0, 1, 1, 2, 3]) if n > 1 else rng.choice([0, 1])
+    late = min(late, n)
+    pending = list(range(n - late))          # accessioned while removals still go on
+    tail = list(range(n - late, n))          # accessioned after the last removal
+    if rng.random() < 0.5:
+        rng.shuffle(pending)
+    nvict = rng.choice([1, 2, 2, 3, 3, 4, 6])
+    nextra = rng.choice([0, 0, 0, 1, 2])
+    hist, live_v, live_all = [], [], []      # live_all: keys in accession order
+    made_v = made_x = 0
+    borrowed = set()
+
+    def add(key, label):
+        hist.append(["add", key, label, rng.choice(ADD_VIAS)])
+        live_all.append(key)
+
+    def remove(key):
+        hist.append(["remove", key, rng.choice(REMOVE_VIAS)])
+        live_all.remove(key)
+        live_v.remove(key)
+
+    steps = 0
+    while (pending or made_v < nvict or made_x < nextra) and steps < 200:
+        steps += 1
+        k = rng.random()
+        if k < 0.40 and pending:
+            x = pending.pop(0)
+            add(x, "t%d" % x)
+        elif k < 0.62 and made_v < nvict:
+            key = 1000 + made_v
+            made_v += 1
+            free = [x for x in tail if x not in borrowed]
+            if free and rng.random() < 0.25:
+                x = rng.choice(free)
+                borrowed.add(x)
+                label = "t%d" % x
+            else:
+                label = "x%d" % (key - 1000)
+            add(key, label)
+            live_v.append(key)
+        elif k < 0.68 and made_x < nextra:
+            add(200 + made_x, "u%d" % made_x)
+            made_x += 1
+        elif k < 0.90 and live_v:
+            c = rng.random()
+            if c < 0.3 and live_all[-1] in live_v:
+                remove(live_all[-1])                     # the newest member
+            elif c < 0.55:
+                remove(live_v[0])                        # the oldest removable one
+            else:
+                remove(rng.choice(live_v))
+        elif 0.90 <= k < 0.94 and live_all:
+            hist.append(["bitmask", rng.choice(live_all)])
+        elif 0.94 <= k < 0.97:
+            hist.append(["sort", rng.random() < 0.5])
+        elif 0.97 <= k and live_all:
+            hist.append(["reverse"])
+    order = list(live_v)
+    rng.shuffle(order)
+    if order and rng.random() < 0.5:
+        order.sort(reverse=rng.random() < 0.5)           # removals in (reverse) accession order
+    for key in order:
+        remove(key)
+    for x in pending + tail:
+        add(x, "t%d" % x)
+    if rng.random() < 0.2:
+        hist.append(["sort", rng.random() < 0.5])
+    elif rng.random() < 0.1:
+        hist.append(["reverse"])
+    return hist
+
+
+def nshist_features(hist):
+    """classes of histories, for the recorded input distribution"""
+    out = []
+    live, gap, removed, nrem = [], False, False, 0
+    add_after_gap = False
+    for op in hist:
+        if op[0] == "add":
+            if gap:
+                add_after_gap = True
+            live.append(op[1])
+        elif op[0] == "remove":
+            nrem += 1
+            out.append("remove-newest" if live and live[-1] == op[1] else "remove-inner")
+            if live and live[-1] != op[1]:
+                gap = True
+            live.remove(op[1])
+        elif op[0] in ("sort", "reverse"):
+            out.append("reorder")
+    out.append("removals:%s" % (nrem if nrem < 4 else "4+"))
+    if add_after_gap:
+        out.append("addition-after-inner-removal")
+    return out
+
+
+def show_nshist(hist):
+    def one(op):
+        if op[0] == "add":
+            return "%s(%r)" % (op[3], op[2])
+        if op[0] == "remove":
+            return "%s(<taxon #%d>)" % (op[2], op[1])
+        if op[0] == "sort":
+            return "sort(reverse=%s)" % op[1]
+        if op[0] == "bitmask":
+            return "taxon_bitmask(<taxon #%d>)" % op[1]
+        return "reverse()"
+    names = {op[1]: op[2] for op in hist if op[0] == "add"}
+    s = ", ".join(one(op) for op in hist)
+    return re.sub(r"<taxon #(\d+)>", lambda m: names.get(int(m.group(1)), "?") + ("" if int(m.group(1)) < 1000 else "*"), s)
+
+
+def replay_nshist(hist):
+    """the history on a fresh TaxonNamespace of the real library -> (ns, {key: Taxon} of the members left)"""
+    import dendropy
+    ns = dendropy.TaxonNamespace()
+    objs = {}
+    with warnings.catch_warnings():
+        warnings.simplefilter("ignore")
+        for op in hist:
+            if op[0] == "add":
+                _, key, label, via = op
+                if via == "new_taxon":
+                    t = ns.new_taxon(label)
+                elif via == "require_taxon":
+                    t = ns.require_taxon(label)
+                elif via == "append":
+                    t = dendropy.Taxon(label=label)
+                    ns.append(t)
+                else:
+                    t = dendropy.Taxon(label=label)
+                    ns.add_taxon(t)
+                if key in objs or any(t is o for o in objs.values()):
+                    raise RuntimeError("C04 harness: namespace history does not create a new taxon at %s" % op)
+                objs[key] = t
+            elif op[0] == "remove":
+                _, key, via = op
+                t = objs.pop(key)
+                if via == "remove_taxon":
+                    ns.remove_taxon(t)
+                elif via == "remove_taxon_label":
+                    ns.remove_taxon_label(t.label)
+                elif via == "discard_taxon_label":
+                    ns.discard_taxon_label(t.label)
+                else:
+                    i = [j for j, o in enumerate(ns) if o is t][0]
+                    del ns[i]
+                if t in ns:
+                    raise RuntimeError("C04 harness: removed taxon still a member")
+            elif op[0] == "sort":
+                ns.sort(reverse=op[1])
+            elif op[0] == "reverse":
+                ns.reverse()
+            elif op[0] == "bitmask":
+                ns.taxon_bitmask(objs[op[1]])
+    return ns, objs
+
+
+def gen_case(rng, max_leaves=12, nops=None, small=False, hist=0.3):
+    case = gen_case0(rng, max_leaves, nops, small)
+    # (drawn after everything else: the cases without history are those of the earlier generator)
+    if rng.random() < hist:
+        case["nshist"] = gen_nshist(rng, case["ntaxa"])
+        case["holes"] = 0
+    return case
+
+
+def gen_case0(rng, max_leaves=12, nops=None, small=False):
     r = rng.random()
     if small or r < 0.55:
         n = rng.randint(1, 6)
@@ -151,16 +332,25 @@ class Live:
 def build_world(case):
     import dendropy
     n = case["ntaxa"]
-    ns0, objs0 = trees.make_namespace(n, random.Random(case["hole_seed"]), holes=case["holes"])
+    if case.get("nshist"):
+        ns0, members = replay_nshist(case["nshist"])
+        objs0 = [members[k] for k in range(n)]
+        if len(ns0) != len(members) or any(t not in ns0 for t in members.values()):
+            raise RuntimeError("C04 harness: namespace history left other members than it says")
+    else:
+        ns0, objs0 = trees.make_namespace(n, random.Random(case["hole_seed"]), holes=case["holes"])
     ns1, objs1 = trees.make_namespace(n, None)
     taxon_objs = {}
     acc = []
+    bits = []
     for k, t in enumerate(objs0):
         taxon_objs[k] = t
         acc.append([k, ns0.accession_index(t)])
+        bits.append([k, ns0.taxon_bitmask(t), t.label])
     for k, t in enumerate(objs1):
         taxon_objs[100 + k] = t
         acc.append([100 + k, ns1.accession_index(t)])
+        bits.append([100 + k, ns1.taxon_bitmask(t), t.label])
     tindex = {id(t): k for k, t in taxon_objs.items()}
     lives = []
     for td in case["trees"]:
@@ -171,7 +361,7 @@ def build_world(case):
         lv.last = (copy.deepcopy(td["spec"]), td["rooted"])
         lv.ns = td["ns"]
         lives.append(lv)
-    return lives, acc, tindex
+    return lives, acc, bits, tindex
 
 
 def dump(lv, tindex):
@@ -334,7 +524,7 @@ def policy():
 
 
 def observe(case):
-    lives, acc, tindex = build_world(case)
+    lives, acc, bits, tindex = build_world(case)
     steps = []
     for op in case["ops"]:
         before = [lv.last for lv in lives]
@@ -396,7 +586,19 @@ def observe(case):
                 lv.last = cur
         rec["changed"] = ch
         steps.append(rec)
-    return {"acc": acc, "policy": policy(), "merge": not library_drops(), "steps": steps}
+    # leaf bitmasks as encode_bipartitions() hands them out (Bipartition.leafset_bitmask of the leaf edges), per tree
+    leafbits = []
+    for lv in lives:
+        row = []
+        try:
+            ns = lv.tree.taxon_namespace
+            for nd in lv.tree.leaf_node_iter():
+                if nd.taxon is not None and id(nd.taxon) in tindex:
+                    row.append([tindex[id(nd.taxon)], ns.taxon_bitmask(nd.taxon)])
+        except Exception:
+            row = None
+        leafbits.append(row)
+    return {"acc": acc, "bits": bits, "leafbits": leafbits, "policy": policy(), "merge": not library_drops(), "steps": steps}
 
 
 # ------------------------------------------------------------------------------------------------
@@ -458,7 +660,47 @@ def ideal_mask(split, acc, allv, rooted):
     return m(b) if any(acc[t] == low for t in a) else m(a)
 
 
+def bit_collision(case, obs):
+    """the clause "leaf bitmasks of distinct taxa on the trees are distinct" (and each is the single bit of the
+    taxon's accession index), per namespace; None or a description naming the taxa and the namespace's history"""
+    acc = {k: v for k, v in obs["acc"]}
+    label = {k: l for k, _b, l in obs.get("bits", [])}
+    nsbits = {k: b for k, b, _l in obs.get("bits", [])}
+    for nsid in sorted(set(t["ns"] for t in case["trees"])):
+        seen = {}
+        for ti, t in enumerate(case["trees"]):
+            if t["ns"] != nsid:
+                continue
+            onleaves = dict((k, b) for k, b in (obs.get("leafbits", [])[ti] or [])) if obs.get("leafbits") else {}
+            for lf in trees.leaves(t["spec"]):
+                k = lf["taxon"]
+                if k is None or k not in nsbits:
+                    continue
+                for b in (nsbits[k], onleaves.get(k, nsbits[k])):
+                    if b != 1 << acc[k]:
+                        return ("taxon %s has accession index %d but leaf bitmask %d" % (label.get(k, k), acc[k], b), "")
+                    if b in seen and seen[b] != k:
+                        hist = case.get("nshist")
+                        return ("distinct taxa %s and %s on the trees (one namespace) have the same leaf bitmask %d "
+                                "(accession index %d)" % (label.get(seen[b], seen[b]), label.get(k, k), b, acc[k]),
+                                "; namespace history: " + show_nshist(hist) if hist else "")
+                    seen[b] = k
+    return None
+
+
 def oracle(case, obs):
+    """set-level definitions from leaf LABEL sets (taxon keys; never bitmasks) against the library's values; when a
+    value is wrong - or not - and two taxa on the trees share a bit, the report names that cause"""
+    coll = bit_collision(case, obs)
+    v = oracle_values(case, obs)
+    if coll:
+        if v:
+            return ("%s; hence %s%s" % (coll[0], v[0], coll[1]), KEY_NSBIT)
+        return (coll[0] + coll[1], KEY_NSBIT)
+    return v
+
+
+def oracle_values(case, obs):
     acc = {k: v for k, v in obs["acc"]}
     # ref: what each tree MEANS (the harness's spec, or the structure an edit left); cur: the latest dump
     # (the library normalises trees in place while encoding; that must not change their meaning)
@@ -735,6 +977,39 @@ def exhaustive_cases(rng):
                    "ops": ops}
 
 
+def history_scope_cases(rng, max_removals):
+    """every history "m taxa (m = 4..6), then 1..max_removals of them removed one after the other (all ordered
+    choices), then one or two new taxa" as the history of the shared namespace; random trees over the members left"""
+    for m in (4, 5, 6):
+        for r in range(1, max_removals + 1):
+            for seq in itertools.permutations(range(m), r):
+                if m - r < 2:
+                    continue
+                keys, nxt = {}, 0
+                for pos in range(m):
+                    if pos in seq:
+                        keys[pos] = 1000 + seq.index(pos)
+                    else:
+                        keys[pos] = nxt
+                        nxt += 1
+                hist = [["add", keys[pos], ("t%d" % keys[pos]) if keys[pos] < 1000 else "x%d" % (keys[pos] - 1000),
+                         "new_taxon"] for pos in range(m)]
+                hist += [["remove", keys[pos], rng.choice(REMOVE_VIAS)] for pos in seq]
+                for _ in range(rng.choice([1, 1, 2])):
+                    hist.append(["add", nxt, "t%d" % nxt, rng.choice(ADD_VIAS)])
+                    nxt += 1
+                n = nxt
+                rooted = rng.choice([None, False, True])
+                tl = []
+                for _ in range(2):
+                    t = trees.gen_tree(rng, n, lengths=rng.choice(["dyadic", "positive"]), taxa=rng.sample(range(n), n))
+                    t["len"] = None
+                    tl.append({"ns": 0, "spec": t, "rooted": rooted})
+                ops = [["symdiff", 0, 1, False, "fn"], ["fpfn", 0, 1, False, "fn"], ["wrf", 0, 1, False, "fn"],
+                       ["wrf", 1, 0, False, "fn"], ["euclid", 0, 1, True, "fn"], ["missing", 1, 0, False, "fn"]]
+                yield {"ntaxa": n, "holes": 0, "hole_seed": 0, "nshist": hist, "trees": tl, "ops": ops}
+
+
 def f8_witness_case():
     """the witness of Props/C04.v defined_sym_refuted, replayed on the implementation"""
     L = lambda i, x, e: {"id": i, "taxon": x, "label": None, "len": e, "kids": []}
@@ -876,7 +1151,8 @@ def search(ctx, budget_s):
     rng = random.Random(ctx.seed + 404)
     n = 0
     while time.time() - t0 < budget_s and n < 20000:
-        case = gen_case(rng, 10)
+        # half of the histories over a namespace that itself has a history of additions and removals
+        case = gen_case(rng, 10, small=(n % 2 == 0), hist=0.5)
         try:
             obs = observe(case)
         except Exception:
@@ -891,8 +1167,12 @@ def search(ctx, budget_s):
 
 
 def show_sample(case, obs):
-    return {"trees": [[trees.newick(t["spec"]), t["rooted"]] for t in case["trees"]],
-            "ops": case["ops"][:8], "out": [r["out"] for r in obs["steps"]][:8]}
+    d = {"trees": [[trees.newick(t["spec"]), t["rooted"]] for t in case["trees"]],
+         "ops": case["ops"][:8], "out": [r["out"] for r in obs["steps"]][:8]}
+    if case.get("nshist"):
+        d["namespace_history"] = show_nshist(case["nshist"])
+        d["accession_indices"] = [[l, b.bit_length() - 1] for k, b, l in obs["bits"] if k < 100]
+    return d
 
 
 def run(tier, seed, replay=None):
@@ -941,12 +1221,18 @@ def run(tier, seed, replay=None):
         core.broken_proof(ctx, search)
     n = 420 if tier == "quick" else 5000
     cases = witness_cases()
-    cases += [gen_case(ctx.rng, 12 if tier == "quick" else 16) for _ in range(n)]
+    rnd = [gen_case(ctx.rng, 12 if tier == "quick" else 16) for _ in range(n)]
+    # (small namespaces with a history first: a violation is then reported on a short history)
+    cases += sorted(rnd, key=lambda c: 0 if c.get("nshist") and c["ntaxa"] <= 6 else 1)
+    cases.extend(history_scope_cases(ctx.rng, 2 if tier == "quick" else 3))
     if tier == "thorough":
         cases.extend(exhaustive_cases(ctx.rng))
     for c in cases:
         ctx.count("leaves:%s" % ("1-2" if c["ntaxa"] <= 2 else "3-6" if c["ntaxa"] <= 6 else "7-12" if c["ntaxa"] <= 12 else "13-25"))
         ctx.count("trees:%d" % len(c["trees"]))
+        ctx.count("namespace:%s" % ("history" if c.get("nshist") else "holes" if c["holes"] else "plain"))
+        for f in (nshist_features(c["nshist"]) if c.get("nshist") else []):
+            ctx.count("nshist:" + f)
         for t in c["trees"]:
             ctx.count("rooted:%s" % t["rooted"])
         for o in c["ops"]:
@@ -978,7 +1264,12 @@ def run(tier, seed, replay=None):
     return ctx.finish(
         level="proof",
         rule="random pairs/triples of trees (1-25 leaves; binary/polytomy/star/caterpillar, unifurcations, seed-edge lengths; "
-             "redrawings, neighbours, independent trees) over one namespace (with vacated accession indices) and rarely a tree "
+             "redrawings, neighbours, independent trees) over one namespace (with vacated accession indices; for 30% of the "
+             "cases built through a history of 1-6 removals at any position - newest, inner, by object / label / index - "
+             "interleaved with the additions, re-used labels, members no tree uses, sort/reverse, early taxon_bitmask calls, "
+             "the trees' taxa partly accessioned after the last removal; the observed accession map goes to the model, the "
+             "oracle works on labels and checks that distinct leaf taxa have distinct single-bit masks; plus every history of 4-6 "
+             "taxa, 1-2 (thorough: 1-3) ordered removals and 1-2 later additions) and rarely a tree "
              "over a second namespace; three rooting states; length patterns all/none/mixed None/zeros/dyadics; histories of "
              "3-12 ops mixing edits (child swap, Edge.collapse, reseed_at, reroot_at_node, set length, set rooting) with "
              "encode_bipartitions and the five distance functions through their public, alias and deprecated entry points, both "
